@@ -123,6 +123,10 @@ def type_errors(ctx, region, case_base):
         ("seconds", lambda r: r.seconds[0:"1"]), ("millis", lambda r: r.millis[0.5:10]), ("millis", lambda r: r.millis[0:10.0]),
         ("millis", lambda r: r.millis[0:10:2]), ("millis", lambda r: r.millis[5]), ("millis", lambda r: r.millis["1":2]),
         ("samples", lambda r: r[0:2:None] if False else r[slice(0, 2, 2)]),
+        # wrong-typed bounds that happen to be falsy must be rejected like any other
+        ("samples", lambda r: r[0.0:5]), ("samples", lambda r: r["":5]), ("samples", lambda r: r[[]:5]), ("samples", lambda r: r[():2]),
+        ("samples", lambda r: r[0:0.0]), ("millis", lambda r: r.millis[0.0:20]), ("millis", lambda r: r.millis[0:0.0]),
+        ("seconds", lambda r: r.seconds["":1]), ("seconds", lambda r: r.seconds[[]:1]), ("seconds", lambda r: r.seconds[0:""]),
     ]
     for i, (view, fn) in enumerate(bad):
         ctx.evaluations += 1
